@@ -1,882 +1,3 @@
-//! Engine `math`: C12 (totality), C13 (sqrt), C14 (log2/ln), C15 (exp/pow/powi),
-//! C16 (sin/cos/tan), C17 (bounded work) for `substrate_fixed::transcendental`.
-//! Oracles: exact integer bracket (sqrt), 320-bit fixed-point log/exp (`vcore::mp`),
-//! exact rational powers, f64 libm with explicit margin (trig), hook loop counter.
-
-mod kf;
-
-use math_ops::*;
-use proptest::prelude::*;
-use vcore::gen::{ing, pattern, pick, Ing};
-pub use vcore::mp::{self, Mp, P};
-use vcore::out::{drive, Outs};
-use vcore::run::{Budget, Engine, Kf, Tier};
-use vcore::{Big, Case, Eval, Fail, Out, L};
-
-pub struct Math;
-
-const NO_LIMIT: u64 = u64::MAX;
-/// work limit for checks other than C17: turns a runaway loop into a counted skip, not a hang
-const SOFT_LIMIT: u64 = 200_000;
-
-fn c17_limit(dl: L) -> u64 {
-    4 * dl.w as u64 + 64
-}
-
-fn exec(c: &Case, limit: u64) -> Outs {
-    let (pair, op, a, b) = (c.lay2 as usize, c.op, c.a, c.b);
-    drive(&mut |st, outs| math_ops::run(st, pair, op, a, b, limit, outs))
-}
-
-fn funs_of(prop: &str) -> &'static [u16] {
-    match prop {
-        "C12" | "C17" => &[SQRT, LOG2, LN, EXP, POW, POWI, SIN, COS, TAN],
-        "C13" => &[SQRT],
-        "C14" => &[LOG2, LN],
-        "C15" => &[EXP, POW, POWI, EXP, POW],
-        "C16" => &[SIN, COS, TAN],
-        _ => &[],
-    }
-}
-
-fn pairs_for(op: u16) -> Vec<u16> {
-    (0..NPAIRS as u16).filter(|i| accepts(pair_info(*i as usize).2, op)).collect()
-}
-
-/// x (raw in S) -> raw in D's scale (From is exact: f_d >= f_s)
-fn to_d(sl: L, dl: L, a: u128) -> Big {
-    sl.val(a).shl(dl.f - sl.f)
-}
-
-fn log_uniform(l: L, r1: u128, r2: u128, positive: bool) -> u128 {
-    let top = if l.signed { l.w - 1 } else { l.w };
-    let k = (r2 % top as u128) as u32;
-    let v = (1u128 << k) | (r1 & ((1u128 << k) - 1));
-    if !positive && l.signed && (r2 >> 64) & 1 == 1 {
-        v.wrapping_neg() & l.mask()
-    } else {
-        v
-    }
-}
-
-/// raw pattern of the real value v (given as Mp) in layout l, saturated to the range
-fn mp_to_raw(l: L, v: &Mp) -> u128 {
-    let r = if l.f <= P { v.shr_floor(P - l.f) } else { v.shl(l.f - P) };
-    l.clamp(&r)
-}
-
-/// atan(2^-i) as Mp (alternating series; pi/4 for i = 0)
-fn atan_pow2(i: u32) -> Mp {
-    if i == 0 {
-        return pi_mp().shr_floor(2);
-    }
-    // sum (-1)^k 2^(-i(2k+1)) / (2k+1)
-    let mut sum = Big::zero();
-    let mut k = 0u32;
-    loop {
-        let sh = i * (2 * k + 1);
-        if sh >= P {
-            break;
-        }
-        let term = Big::pow2(P - sh).divrem_small(2 * k + 1).0;
-        sum = if k % 2 == 0 { sum.add(&term) } else { sum.sub(&term) };
-        k += 1;
-    }
-    sum
-}
-
-fn pi_mp() -> Mp {
-    // 3.14159265358979323846264338327950288419716939937510582097494 (60 digits)
-    let d = b"314159265358979323846264338327950288419716939937510582097494";
-    mp::from_ratio(&Big::from_digits(d, 10), &Big::from_u64(10).pow(59))
-}
-
-/// operands for function `op` on pair (sl -> dl)
-#[allow(clippy::too_many_arguments)]
-fn operands(prop: &str, op: u16, sl: L, dl: L, mode: usize, ia: Ing, ib: Ing, r1: u128, r2: u128) -> (u128, u128) {
-    let one = 1u128 << sl.f;
-    let small = |r: u128| -> i64 { (r % 9) as i64 - 4 };
-    let wrap_add = |base: u128, d: i64| -> u128 { sl.wrap(&sl.val(base).add_i64(d)) };
-    match op {
-        SQRT | LOG2 | LN => {
-            let positive = (r2 >> 100) % 16 != 0; // occasionally negative / zero for the domain rules
-            let a = match mode {
-                0 => pattern(sl, ia),
-                1 | 2 => log_uniform(sl, r1, r2, positive),
-                3 => {
-                    // powers of two +- few ulp
-                    let top = if sl.signed { sl.w - 1 } else { sl.w };
-                    wrap_add(1u128 << (r2 % top as u128) as u32, small(r1))
-                }
-                4 => wrap_add(one, small(r1) * if (r1 >> 8) & 1 == 1 { 1 } else { 1 << ((r1 >> 9) % 20) }),
-                5 => {
-                    // perfect squares +- 1 ulp: y^2 with y of at most half the width
-                    let yb = 1 + (r2 % ((sl.w - 1) as u128 / 2)) as u32;
-                    let y = Big::from_u128(r1 & ((1u128 << yb) - 1));
-                    let sq = y.mul(&y);
-                    let x = if (r2 >> 32) & 1 == 0 { sq.shr_floor(sl.f.min(2 * yb)) } else { sq };
-                    sl.wrap(&x.add_i64(small(r1 >> 64).clamp(-1, 1)))
-                }
-                8 | 9 => {
-                    // branch boundaries of the bit-by-bit logarithm: x = 2^(k + j/2^m), where a repeated squaring
-                    // lands exactly on (or within an ulp of) a power of two
-                    let m = 1 + ((r2 >> 8) % 6) as u32;
-                    let j = 1 + 2 * ((r2 >> 16) % (1u128 << (m - 1))) as i64; // odd numerator
-                    let top = if sl.signed { sl.w - 1 } else { sl.w };
-                    let k = ((r2 >> 32) % top as u128) as i64 - sl.f as i64;
-                    let e = mp::ln2().mul(&Big::from_i64(j)).shr_floor(m).add(&mp::ln2().mul(&Big::from_i64(k)));
-                    let v = mp::exp(&e);
-                    wrap_add(mp_to_raw(sl, &v), (r1 % 5) as i64 - 1)
-                }
-                6 => {
-                    // smallest invertible values: around 2^(2f)/max_D expressed in S
-                    let t = Big::pow2(2 * dl.f).div_trunc(&dl.hi()).shr_floor(dl.f - sl.f);
-                    sl.wrap(&t.add_i64(small(r1)))
-                }
-                _ => {
-                    let t = [sl.raw_max(), sl.raw_max() - 1, sl.raw_max() / 2, 1, 2, 3, one, one * 2, one * 4 & sl.mask(), sl.raw_min(), 0][(r1 % 11) as usize];
-                    t & sl.mask()
-                }
-            };
-            (a, 0)
-        }
-        EXP => {
-            // threshold: ln(max_D) ~ (int_bits - 1) ln 2
-            let thr = mp::ln2().mul(&Big::from_u64(dl.int_bits() as u64));
-            let a = match mode {
-                0 => pattern(sl, ia),
-                1 | 2 | 3 => {
-                    // uniform in [-thr, thr] (in S's grid)
-                    let span = mp_to_raw(sl, &thr).max(1);
-                    let v = r1 % (span + span / 8 + 1);
-                    if (r2 >> 3) & 1 == 1 && sl.signed {
-                        v.wrapping_neg() & sl.mask()
-                    } else {
-                        v
-                    }
-                }
-                4 => {
-                    // uniform in e^x: x = ln(u) for u log-uniform over D's positive range
-                    let k = (r2 % (dl.w as u128 - 1)) as u32;
-                    let u = Big::from_u128((1u128 << k) | (r1 & ((1u128 << k) - 1)));
-                    mp_to_raw(sl, &mp::ln_of(&u, -(dl.f as i64)))
-                }
-                5 => wrap_add(mp_to_raw(sl, &thr), small(r1) * (1 << ((r1 >> 8) % 24))),
-                6 => log_uniform(sl, r1, r2, false),
-                _ => [0, one, one.wrapping_neg() & sl.mask(), 1, sl.mask(), sl.raw_max(), sl.raw_min(), one * 2 & sl.mask(), one / 2, one + 1, one - 1][(r1 % 11) as usize],
-            };
-            (a, 0)
-        }
-        POW => {
-            let base = match mode % 4 {
-                0 => pattern(sl, ia),
-                1 | 2 => log_uniform(sl, r1, r2, (r2 >> 90) % 8 != 0),
-                _ => [0, one, one * 2 & sl.mask(), one / 2, one + 1, one - 1, one * 10 & sl.mask(), sl.raw_max(), 1, one.wrapping_neg() & sl.mask(), one * 3 & sl.mask()][(r1 % 11) as usize],
-            };
-            let bv = sl.val(base);
-            let expo = match (mode / 4) % 4 {
-                0 => pattern(sl, ib),
-                1 if bv.is_pos() && base != one => {
-                    // uniform in +-(threshold / |ln base|)
-                    let thr = mp::ln2().mul(&Big::from_u64(dl.int_bits() as u64));
-                    let lb = mp::ln_of(&bv, -(sl.f as i64)).abs();
-                    let lim = mp::div(&thr, &lb.add_i64(1));
-                    let span = mp_to_raw(sl, &lim).max(1);
-                    let v = (r1 >> 17) % (span + span / 8 + 1);
-                    if (r2 >> 5) & 1 == 1 {
-                        v.wrapping_neg() & sl.mask()
-                    } else {
-                        v
-                    }
-                }
-                2 => {
-                    // small integers and halves
-                    let n = ((r1 >> 20) % 17) as i64 - 8;
-                    let h = if (r1 >> 30) & 1 == 1 { one as i128 / 2 } else { 0 };
-                    sl.wrap(&Big::from_i128(n as i128 * one as i128 + h))
-                }
-                _ => [0, one, one.wrapping_neg() & sl.mask(), one / 2, one * 2 & sl.mask(), 1, sl.raw_max(), sl.raw_min()][((r1 >> 40) % 8) as usize],
-            };
-            (base, expo)
-        }
-        POWI => {
-            let a = match mode % 4 {
-                0 => pattern(sl, ia),
-                1 => log_uniform(sl, r1, r2, false),
-                2 => wrap_add(one, small(r1) << ((r1 >> 8) % (sl.f as u128).max(1)).min(60)),
-                _ => [0, one, one.wrapping_neg() & sl.mask(), one * 2 & sl.mask(), one / 2, 1, sl.mask(), sl.raw_max(), sl.raw_min(), one + 1, one - 1][(r1 % 11) as usize],
-            };
-            let av = sl.val(a).abs();
-            // |x| <= 1 (roughly): the loop cannot leave early by overflow, so cap |n| to bound the work
-            let near_unit = av <= Big::from_u128(one).add(&Big::from_u128(one >> 8));
-            let cap: i64 = if near_unit { if prop == "C12" { 1 << 17 } else { 1 << 10 } } else { i32::MAX as i64 };
-            let n: i64 = match (mode / 4) % 6 {
-                0 => ((r2 >> 8) % 9) as i64 - 4,
-                1 => ((r2 >> 8) % 65) as i64 - 32,
-                2 => {
-                    let k = (r2 >> 8) % 31;
-                    let v = (1i64 << k) + ((r2 >> 16) % 3) as i64 - 1;
-                    if (r2 >> 20) & 1 == 1 {
-                        -v
-                    } else {
-                        v
-                    }
-                }
-                3 => [i32::MIN as i64, i32::MAX as i64, i32::MIN as i64 + 1, -1, 0, 1, 2, -2][((r2 >> 8) % 8) as usize],
-                4 => (r2 >> 8) as u32 as i32 as i64,
-                _ => ((r2 >> 8) % 2001) as i64 - 1000,
-            };
-            // a handful of uncapped extreme exponents on the 32-bit sources (2^31 iterations each)
-            let uncapped = prop == "C12" && (n == i32::MIN as i64 || n == i32::MAX as i64) && sl.w == 32 && (r2 >> 40) % 64 == 0;
-            let n = if n.abs() > cap && !uncapped { n.signum() * (n.abs() % cap) } else { n };
-            (a, (n as i32) as u32 as u128)
-        }
-        _ => {
-            // SIN / COS / TAN: angles |x| <= 200 (tan: 100)
-            let lim: i64 = if op == TAN { 100 } else { 200 };
-            let cap = Big::from_i64(lim).shl(sl.f);
-            let a = match mode {
-                0 | 1 | 2 if prop != "C17" => {
-                    let v = Big::from_u128(r1 % (cap.low_u128() + 1));
-                    sl.wrap(&if (r2 >> 7) & 1 == 1 { v.neg() } else { v })
-                }
-                3 | 4 => {
-                    // multiples of pi/4 +- few ulp
-                    let k = (r1 % 255) as i64 - 127;
-                    let k = if op == TAN { k % 127 } else { k };
-                    let v = pi_mp().mul(&Big::from_i64(k)).shr_floor(2);
-                    wrap_add(mp_to_raw(sl, &v), small(r2))
-                }
-                5 if (r1 >> 40) & 1 == 0 => sl.wrap(&Big::from_i64(small(r1) * (1 + (r1 >> 8) as i64 % 1000))), // tiny angles
-                5 => {
-                    // CORDIC convergence points: +-atan(1) +- atan(1/2) +- ... (n terms, each truncated to the type's
-                    // resolution as the rotation does), where the residual angle becomes exactly zero; plus whole turns
-                    let n = 1 + ((r1 >> 44) % 10) as u32;
-                    let mut acc = Big::zero();
-                    for i in 0..n {
-                        let t = mp_to_raw(sl, &atan_pow2(i));
-                        let t = Big::from_u128(t);
-                        acc = if (r1 >> (50 + i)) & 1 == 1 { acc.sub(&t) } else { acc.add(&t) };
-                    }
-                    let turns = ((r2 >> 16) % 5) as i64 - 2;
-                    let two_pi = Big::from_u128(mp_to_raw(sl, &pi_mp().shl(1)));
-                    sl.wrap(&acc.add(&two_pi.mul(&Big::from_i64(turns))).add_i64(small(r2) / 2))
-                }
-                6 => wrap_add(sl.wrap(&cap), -(r1 as i64 & 0xff)),
-                _ if prop == "C17" || prop == "C12" && mode == 7 && false => pattern(sl, ia),
-                _ => {
-                    let v = Big::from_u128(r1 % (cap.low_u128() + 1));
-                    sl.wrap(&if (r2 >> 7) & 1 == 1 { v.neg() } else { v })
-                }
-            };
-            (a, 0)
-        }
-    }
-}
-
-pub fn tol_ulps(dl: L, n: u64) -> Mp {
-    // n units in the last place of D, as Mp, plus the oracle's own slack
-    Big::from_u64(n).shl(P - dl.f).add(&Big::pow2(P - 280))
-}
-pub fn r_mp(dl: L, raw: u128) -> Mp {
-    mp::from_scaled(&dl.val(raw), dl.f)
-}
-
-/// C15's relative bound for pow: 2^-18 + |y ln x| 2^-22 + 16 |y| 2^-F (as Mp)
-pub fn pow_rel_bound(dl: L, y: &Mp, yl: &Mp) -> Mp {
-    Big::pow2(P - 18).add(&yl.abs().shr_floor(22)).add(&y.abs().shl(4).shr_floor(dl.f))
-}
-
-/// trunc(2^(2F) / X) representable in D?  (the library inverts operands below one)
-fn recip_fits(dl: L, xd: &Big) -> bool {
-    !xd.is_zero() && dl.fits(&Big::pow2(2 * dl.f).div_trunc(xd))
-}
-
-impl Engine for Math {
-    fn name(&self) -> &'static str {
-        "math"
-    }
-    fn props(&self) -> Vec<&'static str> {
-        vec!["C12", "C13", "C14", "C15", "C16", "C17"]
-    }
-    fn op_name(&self, _prop: &str, op: u16) -> String {
-        OP_NAMES[op as usize].to_string()
-    }
-    fn op_from_name(&self, _prop: &str, s: &str) -> Option<u16> {
-        OP_NAMES.iter().position(|n| *n == s).map(|i| i as u16)
-    }
-    fn lay_is_layout(&self, _prop: &str) -> bool {
-        true
-    }
-    fn strategy(&self, prop: &str, stratum: Option<u16>) -> BoxedStrategy<Case> {
-        let funs = funs_of(prop);
-        let prop = prop.to_string();
-        (pick(funs.len()), pick(64), pick(48), ing(), ing(), any::<u128>(), any::<u128>())
-            .prop_map(move |(fi, pi, mode, ia, ib, r1, r2)| {
-                let op = funs[fi];
-                let ps = pairs_for(op);
-                let pair = match stratum {
-                    Some(s) if ps.contains(&s) => s,
-                    _ => ps[pi % ps.len()],
-                };
-                let (sl, dl, _) = pair_info(pair as usize);
-                let m = if op == POW || op == POWI { mode } else if matches!(op, SQRT | LOG2 | LN) { mode % 10 } else { mode % 8 };
-                let (a, b) = operands(&prop, op, sl, dl, m, ia, ib, r1, r2);
-                Case { op, lay: sl.idx() as u16, lay2: pair, a, b, ..Case::default() }
-            })
-            .boxed()
-    }
-    fn budget(&self, prop: &str, tier: Tier) -> Budget {
-        let strata: Vec<u16> = (0..NPAIRS as u16).collect();
-        match (prop, tier) {
-            ("C12", Tier::Quick) => Budget { random: 400_000, per_stratum: 4_000, strata },
-            ("C12", Tier::Thorough) => Budget { random: 40_000_000, per_stratum: 200_000, strata },
-            ("C17", Tier::Quick) => Budget { random: 400_000, per_stratum: 4_000, strata },
-            ("C17", Tier::Thorough) => Budget { random: 40_000_000, per_stratum: 200_000, strata },
-            ("C16", Tier::Quick) => Budget { random: 600_000, per_stratum: 10_000, strata: (0..11).collect() },
-            ("C16", Tier::Thorough) => Budget { random: 60_000_000, per_stratum: 1_000_000, strata: (0..11).collect() },
-            (_, Tier::Quick) => Budget { random: 150_000, per_stratum: 2_000, strata },
-            (_, Tier::Thorough) => Budget { random: 15_000_000, per_stratum: 100_000, strata },
-        }
-    }
-    fn exh_len(&self, prop: &str, tier: Tier) -> u64 {
-        match (prop, tier) {
-            // every I9F23 angle with |x| <= 200, x 3 functions (thorough); quick: every 1024th
-            ("C16", Tier::Thorough) => 3 * (2 * (200u64 << 23) + 1),
-            ("C16", Tier::Quick) => 3 * ((2 * (200u64 << 23)) / 1024 + 1),
-            _ => 0,
-        }
-    }
-    fn exh_case(&self, _prop: &str, tier: Tier, i: u64) -> Case {
-        let stride: u64 = if tier == Tier::Thorough { 1 } else { 1024 };
-        let per = (2 * (200u64 << 23)) / stride + 1;
-        let op = [SIN, COS, TAN][(i / per) as usize];
-        let k = (i % per) * stride;
-        let x = k as i64 - (200i64 << 23);
-        Case { op, lay: L::new(true, 32, 23).idx() as u16, lay2: 0, a: (x as i32) as u32 as u128, ..Case::default() }
-    }
-    fn exh_desc(&self, prop: &str, tier: Tier) -> String {
-        match (prop, tier) {
-            ("C16", Tier::Thorough) => "every I9F23 bit pattern with |x| <= 200 x {sin, cos, tan} (tan asserted for |x| <= 100, |tan x| <= 64)".into(),
-            ("C16", Tier::Quick) => "every 1024th I9F23 bit pattern with |x| <= 200 x {sin, cos, tan}".into(),
-            _ => String::new(),
-        }
-    }
-    fn rule(&self, prop: &str) -> String {
-        let types = "24 source->destination pairs: same-type I9F23 I9F55 I16F48 I24F40 I32F32 I41F23 I9F119 I40F88 I64F64 I96F32 I105F23; I9F23->I32F32 I9F23->I64F64 I32F32->I64F64 I16F48->I40F88 I9F23->I9F55 I24F40->I40F88; unsigned sqrt U9F23 U32F32 U64F64 U96F32 U32F32->U64F64; U9F23->I32F32 U32F32->I64F64 (sqrt, powi)";
-        match prop {
-            "C12" => format!("cases = (function, type pair, operands) over {}; operands over the whole source type (classes, log-uniform magnitudes, powers of two, thresholds of the result range), pow exponents, powi exponents from small/2^k+-1/i32::MIN/i32::MAX/uniform (|n| capped at 2^17 where |x| <~ 1, where the loop cannot leave early, except a few uncapped i32::MIN/MAX exponents on 32-bit sources), trig angles |x| <= 200 (tan 100). Oracle: outcome is Ok/Err/return in both profiles (no unwind), domain rules (sqrt of negative, log of non-positive, negative base with fractional exponent => Err), true result (320-bit oracle, 2^-16 guard band) above the destination maximum => Err. Non-trivial: operand magnitude outside [2^-4, 24] or an Err outcome.", types),
-            "C13" => format!("cases = sqrt over {}; x log-uniform, perfect squares +-1 ulp, near 1, smallest invertible, extremes. Oracle: exact integer bracket (r-4)^2 <= X*2^F <= (r+4)^2, r >= 0, sqrt(0)=0, sqrt(1)=1; Err only for x < 0 or unrepresentable reciprocal. Non-trivial: x not in {{0, 1}}.", types),
-            "C14" => format!("cases = log2/ln over {}; x log-uniform, powers of two +-ulps, near 1, smallest invertible. Oracle: 320-bit log2/ln (atanh series; self-tested against embedded 60-digit constants and identities): |r - log2 x| <= 8 ulp, exact on powers of two, sign rule, |r - ln x| <= 2^-23 |ln x| + 8 ulp; Err only for x <= 0 or unrepresentable reciprocal. Non-trivial: x != 1.", types),
-            "C15" => format!("cases = exp/pow/powi over {}; exp operands uniform in x and in e^x up to the overflow threshold; pow bases log-uniform with exponents within the threshold, small integers and halves; powi as in C12. Oracle: 320-bit exp and exp(y ln x); exact rational X^n (big integers) or 320-bit for powi; bounds as stated in the property; n < 0 metamorphic: powi(x,n) == 1.checked_div(powi(x,|n|)); conventions 0^y=0, x^0=1, x^1=x exact. Non-trivial: Ok result other than the conventions.", types),
-            "C16" => "cases = sin/cos/tan over the 11 same-type signed pairs; angles uniform in |x| <= 200 (tan 100), multiples of pi/4 +- ulps, tiny angles, near the limit; I9F23 angles enumerated (every pattern in the thorough tier, every 1024th in quick). Oracle: f64 libm on the operand rounded to f64 (|x| <= 200 => argument error <= 2^-45, libm <= 1 ulp) with 2^-36 added to every bound: |sin - s|, |cos - c| <= 2^-16, range [-1-2^-16, 1+2^-16], |tan - t| <= 2^-14 (1+t^2) where |t| <= 64 (2^-30 guard band, cases inside skipped). Non-trivial: |x| > 2 or within 2^-10 of a quadrant boundary.".into(),
-            "C17" => format!("cases = every function except powi over {}, operands weighted to the largest and smallest magnitudes; oracle: hook loop counter with hard limit 4*width+64 (the marker panic is the violation, so an unbounded loop costs 4*width+65 iterations to detect). Non-trivial: operand magnitude >= 2^8 or <= 2^-8.", types),
-            _ => String::new(),
-        }
-    }
-    fn assumptions(&self, prop: &str) -> Vec<String> {
-        let mut v = vec!["source/destination pairs are a fixed list of 24 (compile-time type parameters)".to_string()];
-        match prop {
-            "C16" => v.push("f64 libm oracle with a 2^-36 margin added to every bound".into()),
-            "C17" | "C12" => v.push("loop iterations counted by the cfg(substrate_fixed_verif) hook in every loop body of src/transcendental.rs".into()),
-            _ => v.push("320-bit fixed-point log/exp oracle of the harness (error < 2^-300, self-tested)".into()),
-        }
-        v
-    }
-    fn required_classes(&self, prop: &str, _tier: Tier) -> Vec<&'static str> {
-        match prop {
-            "C12" => vec!["err", "ok", "domain-error-expected", "result-does-not-fit", "powi-i32-min", "w128", "unsigned-source"],
-            "C13" => vec!["perfect-square", "x<1", "x>2^32", "w128"],
-            "C14" => vec!["power-of-two", "x<1", "near-one", "w128"],
-            "C15" => vec!["exp", "pow", "powi", "powi-negative-n", "x>8", "w128"],
-            "C16" => vec!["|x|>100", "near-quadrant-boundary", "tan-skipped-guard-band", "w128"],
-            "C17" => vec!["magnitude>=2^8", "magnitude<=2^-8", "w128"],
-            _ => vec![],
-        }
-    }
-    fn eval(&self, prop: &str, c: &Case, chk: bool, kf: &Kf) -> Eval {
-        let mut ev = Eval::default();
-        let pair = c.lay2 as usize;
-        let (sl, dl, pk) = pair_info(pair);
-        let op = c.op;
-        if !accepts(pk, op) {
-            ev.skipped = true;
-            return ev;
-        }
-        let a = c.a & sl.mask();
-        let xs = sl.val(a);
-        let xd = to_d(sl, dl, a);
-        let n = c.b as u32 as i32;
-        // domain restrictions of the properties
-        if matches!(op, SIN | COS | TAN) && prop != "C17" {
-            let lim = Big::from_i64(if op == TAN { 100 } else { 200 }).shl(sl.f);
-            if xs.abs() > lim {
-                ev.skipped = true;
-                return ev;
-            }
-        }
-        if prop == "C17" && op == POWI {
-            ev.skipped = true;
-            return ev;
-        }
-        let limit = if prop == "C17" { c17_limit(dl) } else if op == POWI { NO_LIMIT } else { SOFT_LIMIT };
-        let outs = exec(c, limit);
-        let get = |name: &str| outs.iter().find(|(n, _)| *n == name).map(|x| x.1.clone()).unwrap_or(Out::Na);
-        let res = get("result");
-        let iters = match get("iters") {
-            Out::V(v) => v as u64,
-            _ => 0,
-        };
-        ev.note = format!("result={} iters={}", res.show(), iters);
-        let mut fail = |ev: &mut Eval, label: &str, got: &Out, want: String| {
-            if let Some(id) = kf::matches(kf, prop, c, label, got, chk) {
-                if !ev.known.contains(&id) {
-                    ev.known.push(id);
-                }
-                return;
-            }
-            ev.fails.push(Fail { label: label.to_string(), got: got.show(), want });
-        };
-        // common classes
-        if dl.w == 128 {
-            ev.class("w128");
-        }
-        if !sl.signed {
-            ev.class("unsigned-source");
-        }
-        let mag_bits = xs.abs().bits() as i64 - sl.f as i64; // ~log2|x| + 1
-        let hit_limit = matches!(&res, Out::P(m) if m.contains(LIMIT_MARKER));
-
-        if prop == "C17" {
-            if mag_bits >= 9 {
-                ev.class("magnitude>=2^8");
-            }
-            if mag_bits <= -8 && !xs.is_zero() {
-                ev.class("magnitude<=2^-8");
-            }
-            ev.nontrivial = mag_bits >= 9 || (mag_bits <= -8 && !xs.is_zero());
-            if hit_limit || iters > c17_limit(dl) {
-                fail(&mut ev, "iters", &Out::V(iters as u128), format!("at most 4*{}+64 = {} loop iterations", dl.w, c17_limit(dl)));
-            }
-            ev.class(OP_NAMES[op as usize]);
-            return ev;
-        }
-        if op == TAN && prop != "C17" {
-            // tan is only specified where the true tangent does not exceed 64 in magnitude
-            let x = sl.val(a).to_f64_approx() / 2f64.powi(sl.f as i32);
-            let t = x.tan();
-            if t.abs() > 64.0 * (1.0 - 2f64.powi(-30)) {
-                if t.abs() <= 64.0 * (1.0 + 2f64.powi(-30)) {
-                    ev.class("tan-skipped-guard-band");
-                }
-                ev.class("tan-outside-domain(skipped)");
-                ev.skipped = true;
-                return ev;
-            }
-        }
-        if hit_limit {
-            // a runaway loop is C17's finding; here the case is only counted
-            ev.class("soft-work-limit-hit(not asserted here)");
-            ev.skipped = true;
-            return ev;
-        }
-
-        // ---------- C12: totality ----------
-        if prop == "C12" {
-            if res.is_panic() {
-                fail(&mut ev, "result", &res, "Ok(_) or Err(_) (no panic)".into());
-            }
-            let is_err = matches!(res, Out::E(_));
-            ev.class(if is_err { "err" } else { "ok" });
-            let mut must_err = false;
-            match op {
-                SQRT => must_err = xs.is_neg(),
-                LOG2 | LN => must_err = !xs.is_pos(),
-                POW => {
-                    let e = sl.val(c.b & sl.mask());
-                    let frac_mask = if sl.f == 0 { 0 } else { (1u128 << sl.f) - 1 };
-                    let non_integer = c.b & frac_mask != 0;
-                    must_err = xs.is_neg() && non_integer && !e.is_zero();
-                    if xs.is_pos() && !e.is_zero() && e != Big::pow2(sl.f) {
-                        // "does not fit" is decided modulo the accuracy C15 grants pow: Err is demanded
-                        // only when no value <= max could be within C15's bound of the true power
-                        let y = mp::from_scaled(&e, sl.f);
-                        let l = mp::ln_of(&xs, -(sl.f as i64));
-                        let yl = mp::mul(&l, &y);
-                        let rel = pow_rel_bound(dl, &y, &yl);
-                        let ln_max = mp::ln_of(&dl.hi(), -(dl.f as i64));
-                        if rel < mp::one().shr_floor(1) {
-                            // truth * (1 - rel) > max  <=>  y ln x > ln max - ln(1 - rel); -ln(1-rel) <= 2 rel for rel <= 1/2
-                            let thr = ln_max.add(&rel.shl(1)).add(&Big::pow2(P - 16));
-                            if yl > thr {
-                                must_err = true;
-                                ev.class("result-does-not-fit");
-                            }
-                        }
-                    }
-                }
-                EXP => {
-                    let t = mp::from_scaled(&xs, sl.f);
-                    let thr = mp::ln_of(&dl.hi(), -(dl.f as i64)).add(&Big::pow2(P - 16));
-                    if t > thr {
-                        must_err = true;
-                        ev.class("result-does-not-fit");
-                    }
-                }
-                POWI => {
-                    if n == i32::MIN {
-                        ev.class("powi-i32-min");
-                    }
-                    // |x| >= 2 and n large: x^n cannot fit
-                    if n > dl.w as i32 && xs.abs() >= Big::pow2(sl.f + 1) {
-                        must_err = true;
-                        ev.class("result-does-not-fit");
-                    }
-                }
-                _ => {}
-            }
-            if must_err {
-                ev.class("domain-error-expected");
-                if !is_err && !res.is_panic() {
-                    fail(&mut ev, "result", &res, "Err(_) (undefined request or result does not fit)".into());
-                }
-            }
-            ev.nontrivial = is_err || mag_bits > 5 || mag_bits < -4;
-            ev.class(OP_NAMES[op as usize]);
-            return ev;
-        }
-
-        // ---------- accuracy properties ----------
-        let rv = match &res {
-            Out::V(v) => Some(*v),
-            _ => None,
-        };
-        match op {
-            SQRT => {
-                ev.nontrivial = !xs.is_zero() && xd != Big::pow2(dl.f);
-                if mag_bits > 33 {
-                    ev.class("x>2^32");
-                }
-                if xs.is_pos() && mag_bits <= 0 {
-                    ev.class("x<1");
-                }
-                match rv {
-                    Some(r) => {
-                        let rr = dl.val(r);
-                        let nn = xd.shl(dl.f); // X * 2^F
-                        let four = Big::from_i64(4);
-                        let lo_ok = rr <= four || (&rr - &four).pow(2) <= nn;
-                        let hi_ok = nn <= (&rr + &four).pow(2);
-                        let exact_ok = if xs.is_zero() { rr.is_zero() } else if xd == Big::pow2(dl.f) { rr == Big::pow2(dl.f) } else { true };
-                        if xs.is_neg() || rr.is_neg() || !lo_ok || !hi_ok || !exact_ok {
-                            fail(&mut ev, "result", &res, format!("Ok(r) with |r - sqrt(x)| <= 4 ulp (r ~ {:.6e} for x ~ {:.6e})", (sl.approx(a)).max(0.0).sqrt(), sl.approx(a)));
-                        }
-                        // perfect square?
-                        let s = isqrt(&nn);
-                        if s.mul(&s) == nn && !xs.is_zero() {
-                            ev.class("perfect-square");
-                        }
-                    }
-                    None => {
-                        let allowed = xs.is_neg() || (xs.is_pos() && xd < Big::pow2(dl.f) && !recip_fits(dl, &xd));
-                        if !allowed {
-                            fail(&mut ev, "result", &res, "Ok(_): Err is allowed only for x < 0 or an unrepresentable reciprocal".into());
-                        }
-                    }
-                }
-            }
-            LOG2 | LN => {
-                ev.nontrivial = xs.is_pos() && xd != Big::pow2(dl.f);
-                if xs.is_pos() && xd < Big::pow2(dl.f) {
-                    ev.class("x<1");
-                }
-                if xs.is_pos() && (&xd - &Big::pow2(dl.f)).abs() < Big::pow2(dl.f.saturating_sub(10)) {
-                    ev.class("near-one");
-                }
-                let pow2 = xs.is_pos() && xs.bits() - 1 == xs.mag_trailing_zeros();
-                if pow2 {
-                    ev.class("power-of-two");
-                }
-                match rv {
-                    Some(r) if xs.is_pos() => {
-                        let got = r_mp(dl, r);
-                        let rr = dl.val(r);
-                        let (truth, tol) = if op == LOG2 {
-                            (mp::log2_of(&xs, -(sl.f as i64)), tol_ulps(dl, 8))
-                        } else {
-                            let t = mp::ln_of(&xs, -(sl.f as i64));
-                            let tol = tol_ulps(dl, 8).add(&t.abs().shr_floor(23));
-                            (t, tol)
-                        };
-                        let one = Big::pow2(dl.f);
-                        let sign_ok = if op == LOG2 { (xd > one || !rr.is_pos()) && (xd < one || !rr.is_neg()) } else { true };
-                        let exact_ok = if op == LOG2 && pow2 { rr == Big::from_i64(xs.bits() as i64 - 1 - sl.f as i64).shl(dl.f) } else { true };
-                        if !mp::within(&got, &truth, &tol) || !sign_ok || !exact_ok {
-                            fail(&mut ev, "result", &res, format!("{} = {:.12e} within the stated bound{} (got {:.12e})", OP_NAMES[op as usize], mp::to_f64(&truth), if pow2 && op == LOG2 { ", exact on powers of two" } else { "" }, mp::to_f64(&got)));
-                        }
-                    }
-                    Some(_) => fail(&mut ev, "result", &res, "Err(_) for x <= 0".into()),
-                    None => {
-                        let allowed = !xs.is_pos() || (xd < Big::pow2(dl.f) && !recip_fits(dl, &xd));
-                        if !allowed && !res.is_panic() {
-                            fail(&mut ev, "result", &res, "Ok(_): Err is allowed only for x <= 0 or an unrepresentable reciprocal".into());
-                        }
-                    }
-                }
-            }
-            EXP => {
-                ev.class("exp");
-                if mag_bits > 4 {
-                    ev.class("x>8");
-                }
-                if let Some(r) = rv {
-                    let x = mp::from_scaled(&xs, sl.f);
-                    let truth = mp::exp(&x);
-                    let tol = tol_ulps(dl, 64).add(&truth.shr_floor(20));
-                    let got = r_mp(dl, r);
-                    ev.nontrivial = !xs.is_zero();
-                    if !mp::within(&got, &truth, &tol) {
-                        fail(&mut ev, "result", &res, format!("e^x = {:.12e} within 2^-20 e^x + 64 ulp (got {:.12e})", mp::to_f64(&truth), mp::to_f64(&got)));
-                    }
-                }
-            }
-            POW => {
-                ev.class("pow");
-                let e_raw = c.b & sl.mask();
-                let e = sl.val(e_raw);
-                let one_s = Big::pow2(sl.f);
-                if let Some(r) = rv {
-                    let got = r_mp(dl, r);
-                    let rr = dl.val(r);
-                    if xs.is_zero() {
-                        if !rr.is_zero() {
-                            fail(&mut ev, "result", &res, "0^y = 0".into());
-                        }
-                    } else if e.is_zero() {
-                        if rr != Big::pow2(dl.f) {
-                            fail(&mut ev, "result", &res, "x^0 = 1".into());
-                        }
-                    } else if e == one_s {
-                        if rr != xd {
-                            fail(&mut ev, "result", &res, "x^1 = x".into());
-                        }
-                    } else if xs.is_pos() {
-                        let y = mp::from_scaled(&e, sl.f);
-                        let l = mp::ln_of(&xs, -(sl.f as i64));
-                        let yl = mp::mul(&y, &l);
-                        let truth = mp::exp(&yl);
-                        // relative 2^-18 + |y ln x| 2^-22 + 16 |y| 2^-F, plus 64 ulp
-                        let rel = pow_rel_bound(dl, &y, &yl);
-                        let tol = mp::mul(&rel, &truth).add(&tol_ulps(dl, 64));
-                        ev.nontrivial = true;
-                        if mag_bits > 4 {
-                            ev.class("x>8");
-                        }
-                        if !mp::within(&got, &truth, &tol) {
-                            fail(&mut ev, "result", &res, format!("x^y = {:.12e} within the propagated bound (got {:.12e})", mp::to_f64(&truth), mp::to_f64(&got)));
-                        }
-                    }
-                }
-            }
-            POWI => {
-                ev.class("powi");
-                if mag_bits > 4 {
-                    ev.class("x>8");
-                }
-                if n < 0 {
-                    ev.class("powi-negative-n");
-                }
-                let one_d = Big::pow2(dl.f);
-                if xs.is_zero() {
-                    if rv.map(|r| dl.val(r)) != Some(Big::zero()) {
-                        fail(&mut ev, "result", &res, "0^n = 0".into());
-                    }
-                } else if n == 0 {
-                    if rv.map(|r| dl.val(r)) != Some(one_d.clone()) {
-                        fail(&mut ev, "result", &res, "x^0 = 1".into());
-                    }
-                } else if n == 1 {
-                    if rv.map(|r| dl.val(r)) != Some(xd.clone()) {
-                        fail(&mut ev, "result", &res, "x^1 = x".into());
-                    }
-                } else if n > 0 {
-                    if let Some(r) = rv {
-                        ev.nontrivial = true;
-                        let rr = dl.val(r);
-                        let nn = n as u32;
-                        let exact_bits = (xd.bits() as u64) * nn as u64;
-                        // bound: (n+1) * max(1,|x|)^(n-1) ulp
-                        if exact_bits < 40_000 {
-                            // |rr * 2^(F(n-1)) - X^n| <= (n+1) * max(2^F, |X|)^(n-1)
-                            let lhs = (&rr.shl(dl.f * (nn - 1)) - &xd.pow(nn)).abs();
-                            let m = Big::max(&one_d, &xd.abs());
-                            let rhs = m.pow(nn - 1).mul(&Big::from_u64(nn as u64 + 1));
-                            if lhs > rhs {
-                                fail(&mut ev, "result", &res, format!("x^{} within ({}+1) max(1,|x|)^({}-1) ulp of the exact power", n, n, n));
-                            }
-                        } else {
-                            let l = mp::ln_of(&xd.abs(), -(dl.f as i64));
-                            let nl = l.mul(&Big::from_u64(nn as u64));
-                            let truth = mp::exp(&nl);
-                            let truth = if xd.is_neg() && nn % 2 == 1 { truth.neg() } else { truth };
-                            let ml = if l.is_pos() { l.mul(&Big::from_u64(nn as u64 - 1)) } else { Big::zero() };
-                            let tol = mp::exp(&ml).mul(&Big::from_u64(nn as u64 + 1)).shr_floor(dl.f).add(&truth.abs().shr_floor(200)).add(&tol_ulps(dl, 0));
-                            if !mp::within(&r_mp(dl, r), &truth, &tol) {
-                                fail(&mut ev, "result", &res, format!("x^{} = {:.12e} within the stated bound (got {:.12e})", n, mp::to_f64(&truth), mp::to_f64(&r_mp(dl, r))));
-                            }
-                        }
-                    }
-                } else if n != i32::MIN {
-                    // metamorphic: powi(x, n) == 1.checked_div(powi(x, |n|))
-                    let pos = get("result_abs_n");
-                    let want = match &pos {
-                        Out::V(v) => {
-                            let vv = dl.val(*v);
-                            if vv.is_zero() {
-                                Out::E("Err".into())
-                            } else {
-                                let q = Big::pow2(2 * dl.f).div_trunc(&vv);
-                                if dl.fits(&q) {
-                                    Out::V(dl.wrap(&q))
-                                } else {
-                                    Out::E("Err".into())
-                                }
-                            }
-                        }
-                        Out::E(_) => Out::E("Err".into()),
-                        other => other.clone(),
-                    };
-                    ev.nontrivial = matches!(want, Out::V(_));
-                    if res != want && !pos.is_panic() {
-                        fail(&mut ev, "result", &res, format!("{} (= 1.checked_div(powi(x, {})) with powi(x, {}) = {})", want.show(), -(n as i64), -(n as i64), pos.show()));
-                    }
-                }
-            }
-            _ => {
-                // SIN / COS / TAN with the f64 oracle
-                let x = sl.val(a).to_f64_approx() / 2f64.powi(sl.f as i32);
-                let margin = 2f64.powi(-36);
-                let quad = x / std::f64::consts::FRAC_PI_2;
-                let near_quad = (quad - quad.round()).abs() < 2f64.powi(-10);
-                if near_quad {
-                    ev.class("near-quadrant-boundary");
-                }
-                if x.abs() > 100.0 {
-                    ev.class("|x|>100");
-                }
-                ev.nontrivial = x.abs() > 2.0 || near_quad;
-                match rv {
-                    Some(r) => {
-                        let got = dl.val(r).to_f64_approx() / 2f64.powi(dl.f as i32);
-                        match op {
-                            SIN | COS => {
-                                let t = if op == SIN { x.sin() } else { x.cos() };
-                                let b = 2f64.powi(-16) + margin;
-                                if (got - t).abs() > b || got.abs() > 1.0 + b {
-                                    fail(&mut ev, "result", &res, format!("{}({}) = {} within 2^-16 (got {}, error {:.3e})", OP_NAMES[op as usize], x, t, got, (got - t).abs()));
-                                }
-                            }
-                            _ => {
-                                let t = x.tan();
-                                let guard = 2f64.powi(-30);
-                                if t.abs() > 64.0 * (1.0 + guard) {
-                                    ev.skipped = true;
-                                    return ev;
-                                } else if t.abs() > 64.0 * (1.0 - guard) {
-                                    ev.class("tan-skipped-guard-band");
-                                    ev.skipped = true;
-                                    return ev;
-                                }
-                                if t.abs() > 60.0 {
-                                    ev.class("tan-skipped-guard-band");
-                                }
-                                let b = 2f64.powi(-14) * (1.0 + t * t) * (1.0 + 2f64.powi(-20)) + margin;
-                                if (got - t).abs() > b {
-                                    fail(&mut ev, "result", &res, format!("tan({}) = {} within 2^-14 (1 + tan^2) (got {}, error {:.3e} > {:.3e})", x, t, got, (got - t).abs(), b));
-                                }
-                            }
-                        }
-                    }
-                    None => {
-                        // a panic inside the stated domain
-                        let t = x.tan();
-                        if op != TAN || t.abs() <= 64.0 * (1.0 - 2f64.powi(-30)) {
-                            fail(&mut ev, "result", &res, "a value (no panic) inside the stated angle domain".into());
-                        } else {
-                            ev.skipped = true;
-                            return ev;
-                        }
-                    }
-                }
-            }
-        }
-        ev.class(OP_NAMES[op as usize]);
-        ev
-    }
-    fn pair_gens(&self) -> Vec<&'static str> {
-        vec!["C12", "C13", "C14", "C15", "C16"]
-    }
-    fn exec_raw(&self, _prop: &str, c: &Case) -> Outs {
-        let (_, _, pk) = pair_info(c.lay2 as usize % NPAIRS);
-        if !accepts(pk, c.op) {
-            return Vec::new();
-        }
-        // the loop counter is not an output of the library: only results are compared
-        exec(c, if c.op == POWI { NO_LIMIT } else { SOFT_LIMIT }).into_iter().filter(|(l, _)| *l != "iters").collect()
-    }
-    fn pair_class(&self, _prop: &str, c: &Case, _label: &str, _rel: &[(String, Out)]) -> vcore::pair::PairClass {
-        use vcore::pair::PairClass;
-        if matches!(c.op, SIN | COS | TAN) {
-            // plain arithmetic inside, not Result: asserted inside C12's angle domain only
-            let (sl, _, _) = pair_info(c.lay2 as usize % NPAIRS);
-            let x = sl.val(c.a & sl.mask()).to_f64_approx() / 2f64.powi(sl.f as i32);
-            let lim = if c.op == TAN { 100.0 } else { 200.0 };
-            if x.abs() > lim || (c.op == TAN && x.tan().abs() > 64.0 * (1.0 - 2f64.powi(-30))) {
-                return PairClass::Unclassified;
-            }
-        }
-        PairClass::NeverPanic
-    }
-    fn selftest(&self) -> Result<u64, String> {
-        if isqrt(&Big::from_u64(99)) != Big::from_u64(9) || isqrt(&Big::from_u64(100)) != Big::from_u64(10) || isqrt(&Big::pow2(200)) != Big::pow2(100) {
-            return Err("math isqrt selftest".into());
-        }
-        for i in 0..12u32 {
-            let a = mp::to_f64(&atan_pow2(i));
-            if (a - (0.5f64).powi(i as i32).atan()).abs() > 1e-15 {
-                return Err(format!("math atan_pow2({}) selftest: {}", i, a));
-            }
-        }
-        // pi
-        let p = mp::to_f64(&pi_mp());
-        if (p - std::f64::consts::PI).abs() > 1e-15 {
-            return Err("math pi selftest".into());
-        }
-        for i in 0..NPAIRS {
-            let (s, d, _) = pair_info(i);
-            if d.f < s.f || d.f < 23 {
-                return Err("math pair table selftest".into());
-            }
-        }
-        Ok(NPAIRS as u64 + 4)
-    }
-}
-
-/// floor(sqrt(n)) by Newton on integers
-fn isqrt(n: &Big) -> Big {
-    if n.is_zero() {
-        return Big::zero();
-    }
-    let mut x = Big::pow2((n.bits() + 1) / 2);
-    loop {
-        let y = (&x + &n.div_trunc(&x)).shr_floor(1);
-        if y >= x {
-            return x;
-        }
-        x = y;
-    }
-}
-
 fn main() {
-    std::process::exit(vcore::run::main_with(&Math, lay::is_chk()));
+    bin_math::main_entry()
 }
